@@ -8,6 +8,7 @@
 #include <set>
 
 #include "common/engine.hpp"
+#include "common/cshim.h"
 #include "common/fsutil.hpp"
 #include "common/gen_hist.hpp"
 #include "common/gen_text.hpp"
@@ -175,8 +176,10 @@ static void scenario_history(Src &s) {
         e = econf_getGroups(kf, &gn, &g);
         if (e == ECONF_SUCCESS) {
           for (size_t i = 0; i < gn; i++) g_case.mix(g[i]);
-          VF_CHECK(econf_freeArray(g) == nullptr, "free-result", "econf_freeArray != NULL");
+          // the generic econf_free() macro of the header (C only, through the shim) is the same release
+          VF_CHECK(vf_generic_free_array(g) == nullptr, "free-result", "econf_free(char **) != NULL");
         }
+        VF_CHECK(vf_generic_free_file(nullptr) == nullptr && vf_generic_free_array(nullptr) == nullptr, "free-result", "econf_free(NULL) != NULL");
         e = ECONF_SUCCESS;
         log += "freeNULL;";
         break;
@@ -190,10 +193,10 @@ static void scenario_history(Src &s) {
     g_case.mix((uint64_t)e);
     if (e != ECONF_SUCCESS) failing = true;
   }
-  for (auto &o : objs)
-    if (o) {
-      mix_observed(o);
-      VF_CHECK(econf_freeFile(o) == nullptr, "free-result", "econf_freeFile != NULL");
+  for (size_t i = 0; i < 3; i++)
+    if (objs[i]) {
+      mix_observed(objs[i]);
+      VF_CHECK((i == 2 ? vf_generic_free_file(objs[i]) : econf_freeFile(objs[i])) == nullptr, "free-result", "econf_freeFile / econf_free != NULL");
     }
   g_case.desc = "history: " + log;
   if (failing) g_case.tag("failing_call");
@@ -360,6 +363,14 @@ static void scenario_single(Src &s) {
   }
   VF_CHECK(k >= 6 || k == 4 || e != ECONF_SUCCESS, "fault-ignored", "reading a " << KN[k] << " file succeeded");
   settle(kf, e, "econf_readFile");
+  if (s.chance(35)) {
+    // the same read owned by __attribute__((cleanup(econf_freeFilep / econf_freeArrayp))) variables (header helpers)
+    unsigned long ng = 0;
+    int e2 = plain_delim ? vf_cleanup_scope(p.c_str(), "=", "#", &ng) : vf_cleanup_scope(p.c_str(), " \t=", "#;", &ng);
+    VF_CHECK(e2 == (int)e, "unstable-code", "second read of the same file returned " << e2 << " instead of " << e);
+    g_case.mix((uint64_t)ng);
+    g_case.tag("cleanup_attribute_scope");
+  }
   g_case.desc = std::string("single file: ") + KN[k];
   g_case.nontrivial = k < 6;
   if (k < 6) g_case.tag("failing_call");
